@@ -120,8 +120,9 @@ class Runner:
 
     def run_real(self, case, paths, mode):
         argv = c02eng.argv_of(case, paths)
+        wenv = c02eng.env_of(case, paths)
         if mode == "Q":
-            rc, out, err = self.real.run(["-Q"] + argv, timeout=LIMIT_S)
+            rc, out, err = self.real.run(["-Q"] + argv, timeout=LIMIT_S, env=wenv)
             if rc == -999:
                 return ("HANG",)
             if rc == 0:
@@ -135,7 +136,7 @@ class Runner:
             if os.path.exists(log):
                 os.unlink(log)
             rc, out, err = self.real.run(["-R", "c02list", "-f", "1"] + argv + ["true"], timeout=max(LIMIT_S, 30),
-                                         env={"C02_CONTACT_LOG": log})
+                                         env=dict(wenv, C02_CONTACT_LOG=log))
             if rc == -999:
                 return ("HANG",)
             hosts = []
@@ -147,7 +148,7 @@ class Runner:
                 return ("OK", hosts)
             return ("OK", []) if b"no remote hosts specified" in err else ("ERRX", err[-200:])
         # mode exec: the hosts really contacted, each echoing its own name
-        rc, out, err = self.real.run(["-R", "exec", "-f", "1"] + argv + ["echo", "%h"], timeout=max(LIMIT_S, 30))
+        rc, out, err = self.real.run(["-R", "exec", "-f", "1"] + argv + ["echo", "%h"], timeout=max(LIMIT_S, 30), env=wenv)
         if rc == -999:
             return ("HANG",)
         hosts = []
@@ -279,6 +280,10 @@ def run(ctx):
     for n, shape, pad in bigs:
         cases.append(c02eng.big_exclusion_case(r, n, shape, pad))
         tags.append({"big": (n, shape, pad), "ranged_bytes": c02eng.ranged_len_unrelated(n, pad) if shape == "unrelated" else None})
+    # one exclusion WORD longer than any small fixed buffer (about 4 bytes per number)
+    for n, how in ((100, "x"), (300, "x"), (300, "w"), (700, "x")) + (() if quick else ((2000, "x"), (2000, "w"))):
+        cases.append(c02eng.long_word_case(r, n, how))
+        tags.append({"long_word": (n, how)})
     ctx.log("args level: %d command lines (%d corpus, %d orders of %d small cases, %d exclusion files)" %
             (len(cases), ncorpus, sum(1 for t in tags if "perm_of" in t), nperm_base, len(bigs)))
 
